@@ -33,6 +33,21 @@ POOL_KIND = [
     "func", "input", "output", "func",
 ]
 N = len(POOL_SRC)
+# Extreme values any program can produce; they are not part of the base sweep
+# (indices >= N), see c13.part_extremes.
+EXT_SRC = [
+    "decimal('inf')", "decimal('-inf')", "decimal('nan')", "decimal('1e300')",
+    "decimal('-1e300')", "decimal('5e-324')", "9223372036854775808",
+    "0 - 9223372036854775808", "1000000000000000000", "2958466",
+    "0 - 693594", "date('99991231')", "date('19000101')",
+    "date('20200101') + 0.5",
+]
+EXT_KIND = ["decimal"] * 6 + ["int"] * 5 + ["date"] * 3
+EXT_DECIMAL = set(range(N, N + 6))
+EXT_BIGINT = set(range(N + 6, N + 11))
+POOL_SRC = POOL_SRC + EXT_SRC
+POOL_KIND = POOL_KIND + EXT_KIND
+N_EXT = len(POOL_SRC)
 MUTABLE = {13, 14, 15, 16, 17, 18, 19, 20, 21}
 IMMUTABLE_SHARED = {24, 25, 28}       # function objects are reused
 
@@ -179,6 +194,8 @@ class Sweeper:
             return cv.ValueOutput(cv.StringOutput())
         if i == 28:
             return self._fn0
+        if N <= i < N_EXT:
+            return self.it.interpret(POOL_SRC[i], "pool")
         raise IndexError(i)
 
     # ------------------------------------------------------------- execution
